@@ -53,7 +53,7 @@ Judge(c) == IF c.op = "recv" THEN JudgeRecv(c) ELSE JudgeSend(c)
 VARIABLE i
 Init == i = 1
 Next == /\ i <= N
-        /\ LET v == Judge(TraceLog[i]) IN v = "ok" \/ PrintT(<<"FAIL", i, v>>)
+        /\ LET v == Judge(TraceLog[i]) IN IF v = "ok" THEN TRUE ELSE PrintT(<<"FAIL", i, v>>)
         /\ i' = i + 1
 Spec == Init /\ [][Next]_i
 AllJudged == TLCGet("stats").diameter - 1 = N
